@@ -41,6 +41,58 @@ impl Property for C01 {
             Tier::Thorough => PropConfig { cases: 9600000, max_tape: 400, shards: 16 },
         }
     }
+    /// Zero-sized items under 64-bit length types: the announced length can be anything up to u64::MAX, the
+    /// reference decoder cannot materialise such values, so these are checked on concrete types. (A validation
+    /// that walks over the items would not return; the supervisor's watchdog then reports INCONCLUSIVE.)
+    fn prelude(&self, _reg: &Registry, shard: u32, _nshards: u32, _tier: Tier, st: &mut Stats) -> CaseResult {
+        if shard != 0 {
+            return Ok(());
+        }
+        use flatty::{prelude::*, FlatVec};
+        macro_rules! zst_probe {
+            ($t:ty, $l:ty, $name:expr) => {
+                for len in [0u64, 1, 255, 1 << 32, (1 << 63) - 1, 1 << 63, u64::MAX - 1, u64::MAX] {
+                    for extra in [0usize, 8, 24] {
+                        let mut img = len.to_le_bytes().to_vec();
+                        img.extend(std::iter::repeat(0xA5).take(extra));
+                        let mut buf = Guarded::new_aligned(img.len(), 8, 0, extra == 0);
+                        buf.fill(&img);
+                        st.eval(1);
+                        let r = lib(|| {
+                            let v = <FlatVec<$t, $l>>::validate(buf.as_ref()).is_ok();
+                            let m = <FlatVec<$t, $l>>::from_bytes(buf.as_ref()).map(|x| (x.len() as u64, x.size(), x.as_bytes().len())).map_err(|e| format!("{:?}", e));
+                            (v, m)
+                        });
+                        match r {
+                            Err(p) => vfail!("panic", "{}: validate / from_bytes of a vector announcing {} zero-sized items panicked: {}", $name, len, p),
+                            Ok((v, m)) => {
+                                if !v || m != Ok((len, 8, 8)) {
+                                    vfail!(
+                                        "zero-sized-items",
+                                        "{}: 8-byte header announcing {} zero-sized items (+{} further bytes): validate -> {}, from_bytes -> {:?}; expected Ok and (len {}, size() 8, as_bytes() 8 bytes): zero-sized items take no room",
+                                        $name,
+                                        len,
+                                        extra,
+                                        if v { "Ok" } else { "Err" },
+                                        m,
+                                        len
+                                    );
+                                }
+                            }
+                        }
+                        if let Err(m) = buf.check() {
+                            vfail!("canary", "{}: {}", $name, m);
+                        }
+                        st.nontrivial(($name, len, extra), || json!({"shape": $name, "announced_len": len, "extra_bytes": extra}));
+                    }
+                }
+            };
+        }
+        zst_probe!((), u64, "FlatVec<(), u64>");
+        zst_probe!([u16; 0], usize, "FlatVec<[u16; 0], usize>");
+        zst_probe!((), flatty::portable::le::U64, "FlatVec<(), le::U64>");
+        Ok(())
+    }
     fn run_case(&self, reg: &Registry, shape: usize, tape: &[u8], st: &mut Stats) -> CaseResult {
         let sh = &reg.shapes[shape];
         let ty = sh.ty();
